@@ -11,6 +11,7 @@ from ..model import BUILTIN_EXC, Program
 from ._c16c17kit import *
 from ._kit_c16 import Exec, Evaluator, EvalRaised, BoolSpace, St, Closure, txt, src_of, mk_not, mk_and, mk_or, qual_name, contexts, flat_facts, callable_normal_form, free_names, Frame, RAISE, raise_leaf, tree_of
 from ._kit_c16 import _BUILTINS as EVAL_BUILTINS
+from ._kit_c16 import Interp, InterpFunction
 
 R = Rules(
     "C16",
@@ -41,10 +42,20 @@ R = Rules(
         "through the ASCII lower-casing table and is stored exactly when not opted out and the IP-literal predicate (bracketed, "
         "or three dots / digits and dots only / every label <= 255) is false, the remote keeps scheme and netloc; (e) hostportjoin "
         "brackets exactly hosts that contain ':' and are not bracketed, hostportsplit delegates to SplitResult, UndecidedRemote "
-        "normalises bracketed literals through ipaddress.ip_address and re-joins with hostportjoin.  Not decided: value-level "
-        "round-trip equality over Unicode beyond the representative set, RFC 3986 validity of host names."
+        "normalises bracketed literals through ipaddress.ip_address and re-joins with hostportjoin; (g) the authority get_request_uri "
+        "composes, evaluated per outcome on scenarios over request / response, group / unicast destination, client / server side, "
+        "Uri-Host and Uri-Port present / absent: the remote's hostinfo with the options taking the place of host / port, except for "
+        "a response to a group request, whose authority is the responder's own endpoint untouched by the request's options; "
+        "quote_nonascii by evaluation; (h) the quote functions of message.py as they are wired there (a module-level object is one "
+        "object, a default argument is evaluated once) are run alternately on the checker's own interpreter: every result is the "
+        "quoting of the function's own safe set whatever was quoted before (a memo must be private to a safe set or keyed by it); "
+        "a quote function with state is decided by interpretation in (c) as well; (i) for every remote whose hostinfo is joined "
+        "from a stored (host, port) pair filled from the socket's names, and every class that creates it and hands itself in as "
+        "the object scheme and default port are read from, the port the pair denotes under the remote's own scheme is the socket's "
+        "port.  Not decided: value-level round-trip equality over Unicode beyond the representative set, RFC 3986 validity of host "
+        "names, hostinfo of the datagram transports (constant scheme and constant elided port in one class)."
     ),
-    rule_text="symbolic summaries (outcomes) of the anchored functions, exception-escape analysis with one re-checked lemma, truth-table comparison of path conditions with reference predicates, finite-domain evaluation of component-closed values, constant evaluation of safe sets",
+    rule_text="symbolic summaries (outcomes) of the anchored functions, exception-escape analysis with one re-checked lemma, truth-table comparison of path conditions with reference predicates, finite-domain evaluation of component-closed values, constant evaluation of safe sets, scenario evaluation over the facts a function reads, concrete interpretation of functions with state",
 )
 
 MSG = "message.Message."
@@ -773,19 +784,34 @@ def _run_value(M, ce, var, value):
     return ("?", "value of type %s" % type(v).__name__)
 
 
+def _factory_params(fi):
+    a = fi.node.args
+    return [x.arg for x in a.posonlyargs + a.args], [x.arg for x in a.kwonlyargs]
+
+
 def _quote_functions(ctx):
-    """{name in message.py: (safe set string, defining Assign)} for module constants built by quote_factory."""
+    """{name in message.py: (safe set string, defining statement, {further factory parameter: argument expr})} for
+    module constants built by quote_factory (arguments bound to the factory's parameters by position or keyword)."""
     mod = ctx.prog.module("message")
     out = {}
+    pos, kwonly = _factory_params(ctx.prog.func("util.uri.quote_factory"))
     for st in mod.tree.body:
-        if isinstance(st, ast.Assign) and len(st.targets) == 1 and isinstance(st.targets[0], ast.Name) and isinstance(st.value, ast.Call):
-            q = ctx.prog.resolve_in_module(mod, chain(st.value.func) or "?")
-            if q == "aiocoap.util.uri.quote_factory":
-                qp = params(ctx.prog.func("util.uri.quote_factory"))
-                arg = st.value.args[0] if len(st.value.args) == 1 and not st.value.keywords else \
-                    (st.value.keywords[0].value if not st.value.args and len(st.value.keywords) == 1 and qp and st.value.keywords[0].arg == qp[0] else None)
-                if arg is not None and not isinstance(arg, ast.Starred):
-                    out[st.targets[0].id] = (module_eval(ctx.prog, mod, arg), st)
+        tgt = st.targets[0] if isinstance(st, ast.Assign) and len(st.targets) == 1 else (st.target if isinstance(st, ast.AnnAssign) else None)
+        val = getattr(st, "value", None)
+        if isinstance(tgt, ast.Name) and isinstance(val, ast.Call):
+            q = ctx.prog.resolve_in_module(mod, chain(val.func) or "?")
+            if q == "aiocoap.util.uri.quote_factory" and pos:
+                if any(isinstance(a, ast.Starred) for a in val.args) or any(k.arg is None for k in val.keywords) or len(val.args) > len(pos):
+                    continue
+                bound = dict(zip(pos, val.args))
+                ok = True
+                for k in val.keywords:
+                    if k.arg in bound or k.arg not in pos + kwonly:
+                        ok = False
+                    bound[k.arg] = k.value
+                if ok and pos[0] in bound:
+                    arg = bound.pop(pos[0])
+                    out[tgt.id] = (module_eval(ctx.prog, mod, arg), st, bound)
     return mod, out
 
 
@@ -803,26 +829,184 @@ def _spec_quote(safe, s):
     return "".join(chr(b) if b in keep else "%%%02X" % b for b in s.encode("utf8"))
 
 
+QUOTE_WHAT = "quote_factory(S) keeps exactly the bytes of S and percent-encodes every other UTF-8 byte"
+
+
+def _quote_safes(qf):
+    return sorted({v[0] for v in qf.values() if isinstance(v[0], str)}) + ["", "aZ%/", "".join(chr(i) for i in range(0x21, 0x7F))]
+
+
+_MUTATING_METHODS = {"pop", "append", "extend", "remove", "add", "update", "setdefault", "insert", "clear", "popitem", "discard", "popleft", "appendleft", "sort", "reverse",
+                     "extendleft", "rotate", "difference_update", "intersection_update", "symmetric_difference_update", "__setitem__", "__delitem__", "move_to_end"}
+
+
+def _state_sites(fnode):
+    """Where a function (nested functions included) can keep something from one call to the next: it changes, in
+    place, an object that is not one of the locals of the very function doing it (a variable of the enclosing
+    function, a module-level object), a nested function has default arguments (evaluated once), or a nested function
+    re-binds a variable of the enclosing function.  Building up a local (`pieces.append(..)`, `table[i] = ..` in the
+    function that created `table`) is not state.  -> list of descriptions (empty: none)."""
+    out = []
+
+    def own_locals(fn):
+        a = fn.args
+        names = {x.arg for x in a.posonlyargs + a.args + a.kwonlyargs}
+        for x in walk_no_nested(fn):
+            if isinstance(x, ast.Name) and isinstance(x.ctx, ast.Store):
+                names.add(x.id)
+        return names
+
+    def root_of(n):
+        while isinstance(n, (ast.Attribute, ast.Subscript)):
+            n = n.value
+        return n
+
+    def visit(fn, nested):
+        if isinstance(fn, ast.Lambda):
+            if nested and (fn.args.defaults or any(d is not None for d in fn.args.kw_defaults)):
+                out.append("has a lambda with default arguments")
+            locs = {x.arg for x in fn.args.posonlyargs + fn.args.args + fn.args.kwonlyargs}
+        else:
+            if nested and (fn.args.defaults or any(d is not None for d in fn.args.kw_defaults)):
+                out.append("has a nested function with default arguments (%s)" % fn.name)
+            locs = own_locals(fn)
+        params_ = {x.arg for x in fn.args.posonlyargs + fn.args.args + fn.args.kwonlyargs}
+        for x in walk_no_nested(fn):
+            if x is fn:
+                continue
+            if isinstance(x, (ast.FunctionDef, ast.AsyncFunctionDef, ast.Lambda)):
+                visit(x, True)
+                continue
+            if isinstance(x, ast.Nonlocal) or isinstance(x, ast.Global):
+                out.append("re-binds %s of an enclosing scope" % ", ".join(x.names))
+            tgt = None
+            if isinstance(x, ast.Call) and isinstance(x.func, ast.Attribute) and x.func.attr in _MUTATING_METHODS:
+                tgt = x.func.value
+            elif isinstance(x, (ast.Subscript, ast.Attribute)) and isinstance(x.ctx, (ast.Store, ast.Del)):
+                tgt = x.value
+            elif isinstance(x, ast.NamedExpr):
+                out.append("uses an assignment expression (decided by interpretation for its vocabulary, not for state)")
+            if tgt is not None:
+                r = root_of(tgt)
+                if not (isinstance(r, ast.Name) and r.id in locs and (r.id not in params_ or not nested)) and not isinstance(r, (ast.Constant, ast.JoinedStr, ast.Call, ast.List, ast.Dict, ast.Set, ast.ListComp)):
+                    out.append("changes `%s` in place" % txt(tgt, 40))
+    visit(fnode, False)
+    return out
+
+
+def _quote_factory_shape(ctx):
+    """How the quote functions are decided.  'symbolic': the factory takes the safe set and nothing else and the function
+    it returns neither stores anything nor handles exceptions -- it is a function of (closure computed from the safe set,
+    input), decided on its summarised form.  'interpreted': anything with state or further parameters (a memo, a lazily
+    filled table, an optional cache argument) -- decided by running factory and quote function on the checker's own
+    interpreter, where a history of calls has a meaning."""
+    got = getattr(ctx, "_c16_qshape", None)
+    if got is not None and got[0] is ctx.prog:
+        return got[1]
+    prog = ctx.prog
+    fi = prog.func("util.uri.quote_factory")
+    pos, kwonly = _factory_params(fi)
+    ctx.need(len(pos) >= 1, "quote_factory signature changed")
+    shape = {"fi": fi, "S": pos[0], "kind": "symbolic", "why": None}
+    state = _state_sites(fi.node)
+    if len(pos) + len(kwonly) != 1:
+        shape["kind"], shape["why"] = "interpreted", "quote_factory takes further parameters (%s)" % ", ".join(pos[1:] + kwonly)
+    elif state:
+        shape["kind"], shape["why"] = "interpreted", "quote_factory or the function it returns %s" % state[0]
+    else:
+        ex = Exec(prog)
+        outs = [o for o in ex.run(fi) if o.normal]
+        shape["ex"], shape["outs"] = ex, outs
+        for o in outs:
+            rv = o.end[1] if o.end is not None and o.end[0] == "return" else None
+            clo = getattr(rv, "_closure", None) if isinstance(rv, ast.Name) else None
+            if clo is not None:
+                inner = ex.run(clo.fi, binding={k: v for k, v in clo.env.items() if isinstance(v, Closure)})
+                if any(i.exceptional or i.stores() or "partial" in i.flags for i in inner):
+                    shape["kind"], shape["why"] = "interpreted", "the quote function %s stores values or handles exceptions" % clo.fi.name
+    ctx._c16_qshape = (prog, shape)
+    return shape
+
+
+def _interp_call(what, f, *args):
+    """('ok', value) / ('raise', exception); a NormError (outside the interpreter's vocabulary) is a refusal"""
+    try:
+        return ("ok", f(*args))
+    except EvalRaised as ex_:
+        return ("raise", ex_.exc)
+    except NormError as ex_:
+        raise AnalysisError("C16: %s is outside the interpreter's vocabulary: %s" % (what, ex_))
+
+
+def _diff_detail(safe, s, got, want):
+    k = next((i for i, (x, y) in enumerate(zip(str(got), want)) if x != y), min(len(str(got)), len(want)))
+    return "for safe set %r the result differs from the specification at offset %d of a %d-byte input (got ...%r, expected ...%r)" % (
+        safe[:20], k, len(s.encode("utf8")), str(got)[max(0, k - 3):k + 6], want[max(0, k - 3):k + 6])
+
+
+def _check_quote_factory_interpreted(ctx, qf, shape):
+    """Every quote function on its own: a fresh interpreter per safe set (so nothing is shared), the products of
+    message.py built from their own call expressions (further arguments as written there), synthetic safe sets with the
+    factory's defaults; every sample is quoted twice, so a result remembered by the function itself is seen as well."""
+    prog = ctx.prog
+    fi = shape["fi"]
+    mod = prog.module("message")
+    samples = _utf8_cover()
+    in_use = {}
+    for name, v in qf.items():
+        if isinstance(v[0], str):
+            in_use.setdefault(v[0], v[1].value)
+    bad = None
+    missing = []
+    construct = None
+    n = 0
+    for safe in _quote_safes(qf):
+        I = Interp(prog)
+        if safe in in_use:
+            r = _interp_call("the construction of a quote function", lambda: I.ev.ev(in_use[safe], mod, {}))
+        else:
+            factory = I.function(fi)
+            r = _interp_call("quote_factory", factory, safe)
+        if r[0] == "raise":
+            if safe in in_use:
+                missing.append((safe, r[1]))
+            elif not any(ord(c) >= 128 for c in safe) and bad is None:
+                bad = "quote_factory(%r) raises %r" % (safe[:20], r[1])
+            continue
+        q = r[1]
+        ctx.need(callable(q), "quote_factory does not return a callable")
+        if construct is None:
+            construct = "quote_factory.<locals>.%s" % q.name if isinstance(q, InterpFunction) else "quote_factory: returned callable"
+        for rnd in (0, 1):
+            for s in samples:
+                r = _interp_call("the quote function", q, s)
+                n += 1
+                got = r[1] if r[0] == "ok" else "<raises %r>" % (r[1],)
+                want = _spec_quote(safe, s)
+                if got != want and bad is None:
+                    bad = _diff_detail(safe, s, got, want) + (" when the same input is quoted a second time" if rnd else "")
+    ctx.ob(QUOTE_WHAT, bad is None, fi, fi.node, detail=bad or "interpreted (%s): %d calls covering every UTF-8 byte value for %d safe sets" % (shape["why"], n, len(_quote_safes(qf))),
+           construct=construct or "quote_factory: returned callable")
+    ctx.ob("quote_factory returns a quote function for the safe sets in use", not missing, fi, fi.node, detail=("for safe set %r: raises %r" % (missing[0][0][:30], missing[0][1])) if missing else None,
+           construct="quote_factory: accepts the safe sets in use")
+
+
 def _check_quote_factory(ctx, qf):
     """quote_factory(S) returns f with f(s) = every UTF-8 byte of s kept iff it is in {ord(c) for c in S}, else %XX.
     Decided by evaluating the summarised nested function on strings covering every UTF-8 byte value, for the
     safe sets actually in use and three synthetic ones."""
     prog = ctx.prog
-    fi = prog.func("util.uri.quote_factory")
-    p = params(fi)
-    a_ = fi.node.args
-    mutable = [d for d in list(a_.defaults) + [d for d in a_.kw_defaults if d is not None] if isinstance(d, (ast.Dict, ast.List, ast.Set, ast.Call, ast.DictComp, ast.ListComp, ast.SetComp))]
-    if not ctx.ob("every quote function depends only on its own safe set (quote_factory keeps no state shared between the functions it returns)", not mutable, fi, mutable[0] if mutable else fi.node,
-                  construct="quote_factory defaults: %s" % (stmt_text(mutable[0]) if mutable else "none mutable"), detail="mutable default argument is shared by the path and the query quoter" if mutable else None):
-        return
-    ctx.need(len(p) == 1, "quote_factory signature changed")
-    S = p[0]
-    ex = Exec(prog)
+    shape = _quote_factory_shape(ctx)
+    if shape["kind"] == "interpreted":
+        return _check_quote_factory_interpreted(ctx, qf, shape)
+    fi = shape["fi"]
+    S = shape["S"]
+    ex = shape["ex"]
     ev = Evaluator(prog)
-    outs = [o for o in ex.run(fi) if o.normal]
+    outs = shape["outs"]
     ctx.need(len(outs) >= 1, "quote_factory never returns")
-    what = "quote_factory(S) keeps exactly the bytes of S and percent-encodes every other UTF-8 byte"
-    safes = sorted({v[0] for v in qf.values() if isinstance(v[0], str)}) + ["", "aZ%/", "".join(chr(i) for i in range(0x21, 0x7F))]
+    what = QUOTE_WHAT
+    safes = _quote_safes(qf)
     samples = _utf8_cover()
     covered = {safe: False for safe in safes}
     for o in outs:
@@ -843,9 +1027,7 @@ def _check_quote_factory(ctx, qf):
             qnode, qparam, cenv_exprs = q.node, qp[0], clo.env
             inner = ex.run(q, binding={k: v for k, v in clo.env.items() if isinstance(v, Closure)})
             if any(i.exceptional or i.stores() or "partial" in i.flags for i in inner):
-                ctx.ob(what, False, fi, qnode, construct=construct,
-                       detail="the quote function has exception handlers or stores: its result depends on more than the argument and the safe set")
-                continue
+                raise AnalysisError("C16.c: a quote function with state reached the symbolic decision (it is decided by interpretation)")
             items = []
             for i in inner:
                 if i.end is not None and i.end[0] == "raise":
@@ -1240,7 +1422,7 @@ def _unparse_slots(ctx, gfi, call):
         want = 6 if nm.endswith("urlunparse") else 5
         ctx.need(isinstance(t, (ast.Tuple, ast.List)) and len(t.elts) == want and not any(isinstance(x, ast.Starred) for x in t.elts),
                  "get_request_uri: %s is not called with a literal sequence of %d components" % (nm.split(".")[-1], want))
-        return {"path": t.elts[2], "query": t.elts[4 if want == 6 else 3]}
+        return {"scheme": t.elts[0], "netloc": t.elts[1], "path": t.elts[2], "query": t.elts[4 if want == 6 else 3]}
     if isinstance(call.func, ast.Attribute) and call.func.attr == "geturl" and not call.args and not call.keywords and isinstance(call.func.value, ast.Call):
         return _result_slots(ctx, gfi, call.func.value)
     return None
@@ -1256,7 +1438,7 @@ def _result_slots(ctx, gfi, t):
     for k in t.keywords:
         vals[k.arg] = k.value
     ctx.need("path" in vals and "query" in vals, "get_request_uri: %s(..) without path and query" % nm.split(".")[-1])
-    return {"path": vals["path"], "query": vals["query"]}
+    return {"scheme": vals.get("scheme"), "netloc": vals.get("netloc"), "path": vals["path"], "query": vals["query"]}
 
 
 def _untag(s):
@@ -1550,6 +1732,607 @@ def f_urllib(ctx):
         ctx.ob("if parameters are split off they are put back", reads_params, sfi, sfi.node, construct="set_request_uri: parsed.params")
 
 
+# ---------------------------------------------------------------------------
+# C16.g -- the authority get_request_uri composes
+
+_DIRECTION = "aiocoap.message.Direction"
+_SPLIT, _JOIN, _QNA = "aiocoap.util.hostportsplit", "aiocoap.util.hostportjoin", "aiocoap.util.quote_nonascii"
+
+
+def _spec_hostportsplit(hostport):
+    r = _up.SplitResult(None, hostport, None, None, None)
+    return (r.hostname, r.port)
+
+
+def _spec_quote_nonascii(s):
+    return "".join(chr(b) if b < 128 else "%%%02X" % b for b in s.encode("utf8"))
+
+
+class _Facts:
+    """Expressions of a summarised function as functions of the *facts* the function reads.
+
+    The facts are attribute chains (`self.remote.hostinfo`, `self.request.opt.uri_host`, `self.code.is_response()`,
+    `self._ctx._default_port`, ...): every maximal chain rooted at a local of the function (a zero-argument method call
+    at its end included; `getattr(x, 'a'[, d])` is the chain `x.a`; `t.get_extra_info('name')` of an asyncio transport
+    is the fact `extra:name`) is replaced by a placeholder named after the chain -- a parameter of the function as root
+    is written `$<position>`, so the parameter's name is immaterial --, a member of the Direction enumeration by a
+    token, and the three host / port helpers of util (hostportsplit and hostportjoin are decided by C16.e,
+    quote_nonascii by C16.g) by their specification.  A *scenario* assigns values to chains; a path condition that is
+    closed over assigned chains is evaluated, one that reads none of them is left open, so an outcome is compared on
+    exactly the scenarios it can be taken in."""
+
+    def __init__(self, ctx, ev, fi):
+        self.ctx, self.ev, self.fi, self.prog = ctx, ev, fi, ctx.prog
+        self.names = {}  # chain text -> placeholder name
+        self.keys = {}  # placeholder name -> chain text
+        a = fi.node.args
+        self.params = {x.arg: "$%d" % i for i, x in enumerate(a.posonlyargs + a.args) if x.arg not in ("self", "cls")}
+
+    def ph(self, key):
+        if key not in self.names:
+            self.names[key] = "__f%d" % len(self.names)
+            self.keys[self.names[key]] = key
+        return local_name(self.names[key])
+
+    @staticmethod
+    def _root(n):
+        while isinstance(n, ast.Attribute):
+            n = n.value
+        return n
+
+    def _rooted_local(self, n, bound):
+        if chain(n) is None:
+            return False
+        r = self._root(n)
+        return isinstance(r, ast.Name) and (getattr(r, "_local", False) or r.id == "self") and r.id not in bound
+
+    def _key(self, n):
+        """chain text with a parameter root canonicalised; a placeholder root stands for its own key"""
+        c = chain(n)
+        r = self._root(n)
+        root = self.keys.get(r.id) or self.params.get(r.id) or r.id
+        return root + c[len(r.id):]
+
+    def abstract(self, e, bound=frozenset()):
+        rec = lambda x: self.abstract(x, bound)
+        if isinstance(e, ast.Attribute):
+            # an attribute chain over a conditional expression (`(self.request if R else self).opt.uri_port`, what a
+            # conditionally bound local becomes where the executor does not hoist): attribute access is strict in its
+            # base, so it distributes over the arms
+            path, b = [], e
+            while isinstance(b, ast.Attribute):
+                path.append(b.attr)
+                b = b.value
+            if isinstance(b, ast.IfExp):
+                def over(x):
+                    for a_ in reversed(path):
+                        x = ast.Attribute(value=x, attr=a_, ctx=ast.Load())
+                    return x
+                return ast.IfExp(test=rec(b.test), body=rec(over(b.body)), orelse=rec(over(b.orelse)))
+        if isinstance(e, ast.Call) and isinstance(e.func, ast.Attribute) and not e.args and not e.keywords:
+            b = e.func.value
+            while isinstance(b, ast.Attribute):
+                b = b.value
+            if isinstance(b, ast.IfExp):
+                d = rec(e.func)  # distributed: IfExp of chains
+                if isinstance(d, ast.IfExp):
+                    return ast.IfExp(test=d.test, body=self._recall(d.body), orelse=self._recall(d.orelse))
+        if isinstance(e, ast.Call) and isinstance(e.func, ast.Attribute):
+            f = e.func
+            if f.attr == "get_extra_info" and e.args and isinstance(e.args[0], ast.Constant) and isinstance(e.args[0].value, str) and self._rooted_local(f.value, bound):
+                return self.ph("extra:" + e.args[0].value)
+            if not e.args and not e.keywords and self._rooted_local(f.value, bound) and isinstance(f.value, ast.Attribute):
+                return self.ph(self._key(f) + "()")
+        if isinstance(e, ast.Call) and isinstance(e.func, ast.Name) and e.func.id == "getattr" and not getattr(e.func, "_local", False) and 2 <= len(e.args) <= 3 and not e.keywords \
+                and isinstance(e.args[1], ast.Constant) and isinstance(e.args[1].value, str):
+            inner = rec(e.args[0])
+            if isinstance(inner, ast.Name) and (inner.id in self.keys or self._rooted_local(inner, bound)):
+                return self.ph(self._key(ast.Attribute(value=inner, attr=e.args[1].value, ctx=ast.Load())))
+        if isinstance(e, ast.Attribute) and chain(e) is not None:
+            if self._rooted_local(e, bound):
+                return self.ph(self._key(e))
+            q = qual_name(self.prog, self.fi.module, e)
+            if q and q.startswith(_DIRECTION + "."):
+                return ast.Constant(value=q)
+            return e
+        if isinstance(e, ast.Call):
+            q = qual_name(self.prog, self.fi.module, e) if chain(e.func) else None
+            if q in (_SPLIT, _JOIN, _QNA):
+                return ast.Call(func=local_name("__fn:" + q), args=[rec(a) for a in e.args], keywords=[ast.keyword(arg=k.arg, value=rec(k.value)) for k in e.keywords])
+            f = e.func if isinstance(e.func, ast.Name) else (ast.Attribute(value=rec(e.func.value), attr=e.func.attr, ctx=ast.Load()) if isinstance(e.func, ast.Attribute) else rec(e.func))
+            return ast.Call(func=f, args=[rec(a) for a in e.args], keywords=[ast.keyword(arg=k.arg, value=rec(k.value)) for k in e.keywords])
+        if isinstance(e, (ast.ListComp, ast.SetComp, ast.GeneratorExp, ast.DictComp)):
+            b = set(bound)
+            gens = []
+            for g in e.generators:
+                it = self.abstract(g.iter, frozenset(b))
+                b |= {x.id for x in ast.walk(g.target) if isinstance(x, ast.Name)}
+                gens.append(ast.comprehension(target=g.target, iter=it, ifs=[self.abstract(c, frozenset(b)) for c in g.ifs], is_async=g.is_async))
+            if isinstance(e, ast.DictComp):
+                return ast.DictComp(key=self.abstract(e.key, frozenset(b)), value=self.abstract(e.value, frozenset(b)), generators=gens)
+            return type(e)(elt=self.abstract(e.elt, frozenset(b)), generators=gens)
+        if isinstance(e, ast.Lambda):
+            a = e.args
+            return ast.Lambda(args=a, body=self.abstract(e.body, frozenset(set(bound) | {x.arg for x in a.posonlyargs + a.args + a.kwonlyargs})))
+        if isinstance(e, ast.AST) and not isinstance(e, (ast.expr_context, ast.operator, ast.unaryop, ast.boolop, ast.cmpop, ast.Constant, ast.Name)):
+            kw = {}
+            for f, v in ast.iter_fields(e):
+                if isinstance(v, list):
+                    kw[f] = [rec(x) if isinstance(x, ast.AST) else x for x in v]
+                elif isinstance(v, ast.AST):
+                    kw[f] = rec(v)
+                else:
+                    kw[f] = v
+            return type(e)(**kw)
+        return e
+
+    def _recall(self, x):
+        """zero-argument call of an already abstracted chain (placeholder or conditional expression of placeholders)"""
+        if isinstance(x, ast.IfExp):
+            return ast.IfExp(test=x.test, body=self._recall(x.body), orelse=self._recall(x.orelse))
+        if isinstance(x, ast.Name) and x.id in self.keys:
+            return self.ph(self.keys[x.id] + "()")
+        return ast.Call(func=x, args=[], keywords=[])
+
+    def env_of(self, facts, extra=()):
+        env = {"__fn:" + _SPLIT: _spec_hostportsplit, "__fn:" + _JOIN: _spec_hostportjoin, "__fn:" + _QNA: _spec_quote_nonascii}
+        for k, v in facts.items():
+            if k in self.names:
+                env[self.names[k]] = v
+        env.update(extra)
+        return env
+
+    def known(self, ae, facts, extra=()):
+        """does the abstracted expression read a fact the scenario assigns?"""
+        assigned = {self.names[k] for k in facts if k in self.names} | set(extra)
+        return any(isinstance(n, ast.Name) and n.id in assigned for n in ast.walk(ae))
+
+    def reads(self, ae):
+        """keys of the facts an abstracted expression reads"""
+        return {self.keys[n.id] for n in ast.walk(ae) if isinstance(n, ast.Name) and n.id in self.keys}
+
+    def applies(self, conds, facts, env, extra=(), where="?"):
+        """Can the path with the (abstracted) conditions be taken in the scenario?  A test that raises ends the path; a
+        test about nothing the scenario assigns is open; a test about assigned facts that cannot be evaluated is refused."""
+        for ae, pol, e in conds:
+            try:
+                v = self.ev.ev(ae, self.fi.module, env)
+            except EvalRaised:
+                return False
+            except NormError as ex_:
+                if self.known(ae, facts, extra):
+                    raise AnalysisError("%s: a condition about assigned facts is outside the evaluator's vocabulary (%s): `%s`" % (where, ex_, txt(e, 100)))
+                continue
+            if bool(v) != pol:
+                return False
+        return True
+
+
+_Authority = _Facts
+
+
+def _authority_scenarios(lis_param):
+    """(facts, parameters, expected netloc, family) over: request / response, group / unicast destination of the request,
+    client / server side, the deprecated explicit argument given or not, Uri-Host absent / ASCII / non-ASCII, Uri-Port
+    absent / present.  All values are non-degenerate (a host name, a non-zero port, a remote that has a hostinfo)."""
+    IN, OUT = _DIRECTION + ".INCOMING", _DIRECTION + ".OUTGOING"
+    own = {"hostinfo": "[2001:db8::1]:61616", "hostinfo_local": "[2001:db8::2]"}
+    ref = {"hostinfo": "[ff02::fd]:1234", "hostinfo_local": "192.0.2.9:5685"}
+    out = []
+    for resp in (False, True):
+        for mc in (False, True):
+            for direction in (IN, OUT):
+                server = (direction == IN) != resp
+                for given in (None, server):
+                    for uh in (None, "sensors.example", "bücher.example"):
+                        for up in (None, 8683):
+                            r = "self.request" if resp else "self"
+                            facts = {"self.code.is_response()": resp, "self.direction": direction,
+                                     r + ".remote.is_multicast": mc, r + ".opt.uri_host": uh, r + ".opt.uri_port": up,
+                                     r + ".remote.hostinfo": ref["hostinfo"], r + ".remote.hostinfo_local": ref["hostinfo_local"]}
+                            if resp:
+                                facts["self.remote.hostinfo"] = own["hostinfo"]
+                                facts["self.remote.hostinfo_local"] = own["hostinfo_local"]
+                            if resp and mc:
+                                want, fam = (own["hostinfo_local"] if server else own["hostinfo"]), "group"
+                            else:
+                                base = ref["hostinfo_local"] if server else ref["hostinfo"]
+                                if uh is None and up is None:
+                                    want, fam = base, "plain"
+                                else:
+                                    h, p = _spec_hostportsplit(base)
+                                    want, fam = _spec_hostportjoin(_spec_quote_nonascii(uh or h), up or p), "options"
+                            out.append((facts, {lis_param: given}, want, fam))
+    return out
+
+
+def _check_quote_nonascii(ctx, ex, ev):
+    fi = ctx.prog.func("util.quote_nonascii")
+    p = params(fi)
+    ctx.need(len(p) == 1, "quote_nonascii signature changed")
+    outs = ex.run(fi)
+    ctx.need(not any(o.exceptional or o.stores() for o in outs), "quote_nonascii has exception handlers or stores: outside the rule's vocabulary")
+    bad = None
+    node = fi.node
+    n = 0
+    for s in _utf8_cover():
+        for o in outs:
+            try:
+                if not all(bool(ev.ev(ce, fi.module, {p[0]: s})) == pol for ce, pol in o.conds()):
+                    continue
+            except EvalRaised:
+                continue
+            except NormError as ex_:
+                raise AnalysisError("C16.g: a condition of quote_nonascii is outside the evaluator's vocabulary: %s" % ex_)
+            if o.end is None or o.end[0] != "return" or o.end[1] is None:
+                got = "<%s>" % (o.end[0] if o.end else "falls off the end")
+            else:
+                try:
+                    got = ev.ev(o.end[1], fi.module, {p[0]: s})
+                except EvalRaised as ex_:
+                    got = "<raises %r>" % (ex_.exc,)
+                except NormError as ex_:
+                    raise AnalysisError("C16.g: the result of quote_nonascii is outside the evaluator's vocabulary: %s" % ex_)
+            n += 1
+            want = _spec_quote_nonascii(s)
+            if got != want and bad is None:
+                k = next((i for i, (x, y) in enumerate(zip(str(got), want)) if x != y), min(len(str(got)), len(want)))
+                bad = "result differs from the specification at offset %d of a %d-byte input (got ...%r, expected ...%r)" % (k, len(s.encode("utf8")), str(got)[max(0, k - 3):k + 6], want[max(0, k - 3):k + 6])
+                node = o.end[2] if o.end is not None and o.end[2] is not None else fi.node
+    ctx.floor("evaluated results of quote_nonascii", n, 5)
+    ctx.ob("quote_nonascii keeps every ASCII byte and writes every other UTF-8 byte as %XX", bad is None, fi, node, detail=bad, construct="quote_nonascii result")
+
+
+@R.clause("C16.g", "the authority composed by get_request_uri is the remote's hostinfo with Uri-Host / Uri-Port taking the place of host / port -- except for a response to a request sent to a group, whose authority is the responder's own endpoint, untouched by the request's options")
+def g(ctx):
+    """Added after an independently written breaking change let the Uri-Host / Uri-Port override also rewrite the
+    responder's endpoint chosen for responses to multicast requests (all responders collapse into the group's URI).
+    Decided by evaluation: every outcome of get_request_uri that composes a URI is evaluated, in each scenario its path
+    condition admits, on concrete endpoint / option values and compared with RFC 7252 section 6.5 steps 3-5 and the
+    documented multicast rule."""
+    prog = ctx.prog
+    gfi = prog.func(GET)
+    gex = Exec(prog)
+    gev = Evaluator(prog)
+    _check_quote_nonascii(ctx, gex, gev)
+    extra_params = params(gfi) + [a.arg for a in gfi.node.args.kwonlyargs]
+    ctx.need(len(extra_params) == 1, "get_request_uri has parameters other than the (deprecated) local_is_server: %s" % extra_params)
+    lis = extra_params[0]
+    A = _Authority(ctx, gev, gfi)
+    cases = []
+    for o in gex.run(gfi):
+        if o.end is None or o.end[0] != "return" or not isinstance(o.end[1], ast.Call):
+            continue
+        slots = _unparse_slots(ctx, gfi, o.end[1])
+        if slots is None or slots.get("netloc") is None:
+            continue
+        node = src_of(o.end[2]) if o.end[2] is not None else gfi.node
+        cases.append({"o": o, "slot": slots["netloc"], "aslot": A.abstract(slots["netloc"]), "conds": [(A.abstract(e), pol, e) for e, pol in o.conds()], "node": node})
+    ctx.floor("outcomes of get_request_uri that compose a URI", len(cases), 3)
+    WHAT = {
+        "group": "the authority of a response to a request that was sent to a group is the responder's own endpoint (hostinfo on the client, hostinfo_local on the server), whatever Uri-Host / Uri-Port the request carried",
+        "plain": "without Uri-Host and Uri-Port the authority is the hostinfo of the remote the request is (was) exchanged with (hostinfo_local on the server)",
+        "options": "Uri-Host / Uri-Port take the place of the host / port of the remote's hostinfo (other part kept, non-ASCII host escaped, re-joined with hostportjoin)",
+    }
+    bad = {k: None for k in WHAT}
+    hits = {k: 0 for k in WHAT}
+    cache = {}
+    for facts, extra, want, fam in _authority_scenarios(lis):
+        env = A.env_of(facts, extra)
+        hit = 0
+        for cs in cases:
+            if not A.applies(cs["conds"], facts, env, extra, "C16.g: get_request_uri"):
+                continue
+            hit += 1
+            try:
+                got = gev.ev(cs["aslot"], gfi.module, env)
+            except EvalRaised as ex_:
+                got = "<raises %r>" % (ex_.exc,)
+            except NormError as ex_:
+                raise AnalysisError("C16.g: get_request_uri: the composed authority `%s` is outside the evaluator's vocabulary: %s" % (txt(cs["slot"], 120), ex_))
+            hits[fam] += 1
+            if got != want and bad[fam] is None:
+                r = "response" if facts["self.code.is_response()"] else "request"
+                shown = {k.split(".", 1)[1]: v for k, v in facts.items() if k.endswith((".uri_host", ".uri_port", ".is_multicast"))}
+                bad[fam] = (cs, "%s, %s side, %s: composed %r, expected %r (`%s`)" % (r, "server" if facts["self.direction"].endswith("INCOMING") != facts["self.code.is_response()"] else "client", shown, got, want, txt(cs["slot"], 120)))
+        ctx.need(hit > 0, "get_request_uri: no path composes a URI for the scenario %s" % sorted(facts.items()))
+    for fam, what in WHAT.items():
+        ctx.need(hits[fam] > 0, "get_request_uri: no evaluation for the %s family" % fam)
+        b = bad[fam]
+        ctx.ob(what, b is None, gfi, b[0]["node"] if b else cases[0]["node"], detail=b[1] if b else "%d evaluation(s)" % hits[fam], construct="get_request_uri: authority, %s" % fam)
+
+
+# ---------------------------------------------------------------------------
+# C16.h -- quote functions and their state
+
+@R.clause("C16.h", "what a quote function returns depends on its safe set and its argument only: whatever the quote functions of message.py remember (a memo, a cache handed to the factory, a default argument) is private to one safe set or keyed by it")
+def h(ctx):
+    """Added after two independently written breaking changes gave the path and the query quoter (safe sets differing
+    in '&', '/' and '?') one memo keyed by the input string alone: once through a mutable default argument of the
+    factory, once through an optional cache parameter of the factory (harmless alone: every product may get its own
+    dictionary) to which message.py passes one module-level dictionary for both (harmless alone: the key could include
+    the safe set).  The invariant the two sites maintain jointly is stated over histories, and decided by running them:
+    all quote functions of message.py are constructed in ONE interpreter, exactly as written there (a module-level
+    object is one object, a default argument is evaluated once per function, a display is a new object each time), then
+    called alternately on inputs on which their safe sets disagree; every result must be the specified quoting for the
+    function's own safe set, in both orders and again on the second round (when every memo is warm)."""
+    prog = ctx.prog
+    mod, qf = _quote_functions(ctx)
+    ctx.floor("quote functions built by quote_factory in message.py", len(qf), 2)
+    shape = _quote_factory_shape(ctx)
+    fi = shape["fi"]
+    what = "every quote function of message.py returns the quoting of its own safe set whatever any of them quoted before"
+    construct = "quote functions of message.py: results independent of earlier calls"
+    if shape["kind"] == "symbolic":
+        # C16.c decides the function on its summarised form, which exists only for a function without stores and
+        # handlers over a closure computed from the safe set: there is no history to depend on
+        ctx.ob(what, True, fi, fi.node, construct=construct, detail="quote_factory(S) returns a function without state (decided symbolically by C16.c)")
+        return
+    names = [n for n, v in qf.items() if isinstance(v[0], str)]
+    ctx.need(len(names) >= 2, "fewer than two quote functions with a constant safe set")
+    # inputs on which at least two of the safe sets in use disagree, plus the byte-covering samples
+    differing = sorted({c for a in names for b in names for c in set(qf[a][0]) ^ set(qf[b][0])})
+    samples = ["".join(differing), "a" + "b".join(differing) + "c"] + [c for c in differing] + _utf8_cover()
+    bad = None
+    node = fi.node
+    ncalls = 0
+    for order in (names, names[::-1]):
+        I = Interp(prog)
+        prods = {}
+        for n in names:  # construction in module order, whatever the order of the calls
+            r = _interp_call("the construction of %s" % n, lambda n=n: I.ev.ev(qf[n][1].value, mod, {}))
+            ctx.need(r[0] == "ok" and callable(r[1]), "construction of %s fails in the interpreter: %r" % (n, r[1]))
+            prods[n] = r[1]
+        for rnd in (0, 1):
+            for s in samples:
+                for n in order:
+                    r = _interp_call("the quote function %s" % n, prods[n], s)
+                    ncalls += 1
+                    got = r[1] if r[0] == "ok" else "<raises %r>" % (r[1],)
+                    want = _spec_quote(qf[n][0], s)
+                    if got != want and bad is None:
+                        others = [x for x in order if x != n]
+                        bad = "%s(%r) gives %r, expected %r, after %s quoted the same input%s" % (n, s[:24], str(got)[:40], want[:40], " / ".join(others), " (second round)" if rnd else "")
+                        node = qf[n][1]
+    ctx.ob(what, bad is None, fi, fi.node, construct=construct, detail=bad or "interpreted (%s): %d alternating calls" % (shape["why"], ncalls))
+
+
+# ---------------------------------------------------------------------------
+# C16.i -- the port a connection-oriented remote leaves out of its hostinfo
+
+# default ports of the CoAP schemes (RFC 7252 section 6.1 / 6.2, RFC 8323 section 8)
+DEFAULT_PORTS = {"coap": 5683, "coaps": 5684, "coap+tcp": 5683, "coaps+tcp": 5684, "coap+ws": 80, "coaps+ws": 443}
+_SOCK_PORTS = (5683, 5684, 80, 443, 61616)
+
+
+def _pair_field(prog, ex, fi):
+    """F when every normal outcome of the hostinfo accessor `fi` returns hostportjoin(*self.F) / hostportjoin(self.F[0], self.F[1])"""
+    fields = set()
+    for o in ex.run(fi):
+        if not o.normal:
+            continue
+        v = o.end[1] if o.end is not None and o.end[0] == "return" else None
+        if not (isinstance(v, ast.Call) and qual_name(prog, fi.module, v) == _JOIN and not v.keywords):
+            return None
+        if len(v.args) == 1 and isinstance(v.args[0], ast.Starred):
+            c = chain(v.args[0].value)
+        elif len(v.args) == 2 and all(isinstance(a, ast.Subscript) and isinstance(a.slice, ast.Constant) and a.slice.value == i for i, a in enumerate(v.args)) \
+                and chain(v.args[0].value) == chain(v.args[1].value):
+            c = chain(v.args[0].value)
+        else:
+            return None
+        if not c or not c.startswith("self.") or c.count(".") != 1:
+            return None
+        fields.add(c)
+    return fields.pop() if len(fields) == 1 else None
+
+
+def _field_states(o, fields):
+    """Replay the events of an outcome in order, reading a tracked field as the value last assigned to it on the path:
+    -> (conditions [(expr, polarity)], {field: final value expr}); None when a tracked field is changed other than by
+    assignment."""
+    state = {}
+
+    def sub(e):
+        def fn(n):
+            if isinstance(n, ast.Attribute) and chain(n) in state:
+                return state[chain(n)]
+            return None
+        return rewrite(e, fn) if state else e
+
+    conds = []
+    for ev in o.trace:
+        if ev[0] == "cond":
+            conds.append((sub(ev[1]), ev[2]))
+        elif ev[0] == "store":
+            tgt = ev[1]
+            hit = [f for f in fields if tgt == f or tgt.startswith(f + "[") or tgt.startswith(f + ".")]
+            if hit:
+                if tgt not in fields or ev[4] != "assign" or ev[2] is None:
+                    return None
+                state[tgt] = sub(ev[2])
+    return conds, state
+
+
+def _context_classes(prog, conn_ci, attr):
+    """Classes whose instances are stored as self.<attr> of the connection class: the constructor parameter assigned to
+    the attribute, and the classes (with their subclasses) that pass `self` for it wherever the class is constructed.
+    None when some construction passes anything else."""
+    init = prog.lookup_method(conn_ci.qn, "__init__")
+    if init is None:
+        return None
+    pnames = params(init) + [a.arg for a in init.node.args.kwonlyargs]
+    src = None
+    for kind, n in stores_to(init.node, "self." + attr):
+        if kind != "assign" or not isinstance(n, ast.Assign):
+            return None
+        v = resolve_local(init.node, n.value)
+        if not (isinstance(v, ast.Name) and v.id in pnames):
+            return None
+        src = v.id
+    if src is None:
+        return None
+    pos = params(init).index(src) if src in params(init) else None
+    out = set()
+    for f in prog.funcs.values():
+        for c in ast.walk(f.node) if f.parent is None else ():
+            if not (isinstance(c, ast.Call) and chain(c.func)):
+                continue
+            q = prog.resolve_in_module(f.module, chain(c.func))
+            if q is None or q not in prog.classes or conn_ci.qn not in prog.mro(q) or prog.lookup_method(q, "__init__") is not init:
+                continue
+            arg = c.args[pos] if pos is not None and pos < len(c.args) and not any(isinstance(a, ast.Starred) for a in c.args) else next((k.value for k in c.keywords if k.arg == src), None)
+            if not (isinstance(arg, ast.Name) and arg.id == "self" and f.cls is not None):
+                return None
+            out |= set(prog.subclasses(f.cls.qn)) | {f.cls.qn}
+    return sorted(out)
+
+
+@R.clause("C16.i", "a remote whose hostinfo is joined from a stored (host, port) pair taken from the socket leaves the port out only when it is the default port of the scheme the same remote reports (for every context class the connection is created by)")
+def i_hostinfo(ctx):
+    """Added after an independently written breaking change made every TCP-family connection elide port 5683 from its
+    hostinfo -- also the coaps+tcp ones, whose scheme's default is 5684: get_request_uri composes scheme://hostinfo, and
+    a URI without port denotes the default port of ITS scheme.  Necessary condition, per stored pair: the port the pair
+    denotes under the remote's scheme (its port component, or the scheme's default when that is None) is the port of
+    the socket.  Decided by evaluation of the summarised writer (fields read as last assigned on the path) for every
+    class that creates the connection and hands itself in as the object the scheme / default port are read from."""
+    prog = ctx.prog
+    ex = Exec(prog)
+    ev = Evaluator(prog)
+    nsites = 0
+    seen_fields = set()
+    for ci in sorted(prog.classes.values(), key=lambda c: c.qn):
+        if not ("hostinfo" in ci.methods and "hostinfo_local" in ci.methods):
+            continue
+        pair = {side: _pair_field(prog, ex, ci.methods[name]) for side, name in (("peername", "hostinfo"), ("sockname", "hostinfo_local"))}
+        if not all(pair.values()):
+            continue  # hostinfo is not joined from a stored pair: not this clause's business
+        fields = sorted(set(pair.values()))
+        for sub in sorted(prog.subclasses(ci.qn)):
+            sci = prog.classes[sub]
+            for mname, wfi in sorted(sci.methods.items()):
+                if not any(stores_to(wfi.node, f) for f in fields) or (sub, mname) in seen_fields:
+                    continue
+                seen_fields.add((sub, mname))
+                if not is_plain_sync(wfi):
+                    ctx.note("%s writes %s but is not a plain synchronous method: not analysed" % (wfi.short, fields))
+                    continue
+                nsites += _check_pair_writer(ctx, ex, ev, sci, wfi, pair)
+    ctx.floor("methods that fill a (host, port) pair of a hostinfo from the socket", nsites, 1)
+
+
+def _check_pair_writer(ctx, ex, ev, sci, wfi, pair):
+    prog = ctx.prog
+    fields = sorted(set(pair.values()))
+    F = _Facts(ctx, ev, wfi)
+    cases = []
+    for o in ex.run(wfi):
+        if not o.normal:
+            continue
+        ctx.need(not o.exceptional and "partial" not in o.flags, "%s: a path through an exception handler fills the hostinfo pair: outside the rule's vocabulary" % wfi.short)
+        r = _field_states(o, fields)
+        ctx.need(r is not None, "%s changes %s other than by assignment: outside the rule's vocabulary" % (wfi.short, fields))
+        conds, state = r
+        if not state:
+            continue
+        node = next((ev_[3] for ev_ in reversed(o.trace) if ev_[0] == "store" and ev_[1] in fields), wfi.node)
+        cases.append({"o": o, "conds": [(F.abstract(e), pol, e) for e, pol in conds], "state": {f: (F.abstract(v), v) for f, v in state.items()}, "node": src_of(node)})
+    if not cases:
+        return 0
+    # is the pair taken from the socket?  (a pair handed in by the caller -- e.g. split from a URI -- is what it is)
+    from_socket = {f for cs in cases for f, (av, v) in cs["state"].items() if any(k.startswith("extra:") for k in F.reads(av))}
+    if not from_socket:
+        ctx.note("%s fills %s from something other than the socket's names: not analysed" % (wfi.short, fields))
+        return 0
+    # the scheme the same remote reports
+    sfi = prog.lookup_method(sci.qn, "scheme")
+    scheme_expr = None
+    if sfi is not None:
+        souts = [o for o in ex.run(sfi) if o.normal]
+        if len(souts) == 1 and souts[0].end is not None and souts[0].end[0] == "return" and souts[0].end[1] is not None and not souts[0].conds():
+            scheme_expr = F.abstract(souts[0].end[1])
+    else:
+        a_, c_ = prog.class_attr(sci.qn, "scheme")
+        scheme_expr = a_
+    ctx.need(scheme_expr is not None, "%s: the scheme of the remote is not a class constant or an unconditional accessor" % sci.qn)
+    # objects the facts are read through: self.<attr>.<name> with <attr> set from a constructor argument
+    through = {}
+    for k in list(F.names):
+        parts = k.split(".")
+        if len(parts) == 3 and parts[0] == "self" and not k.endswith("()"):
+            through.setdefault(parts[1], set()).add(parts[2])
+    ctx.need(len(through) <= 1, "%s reads class-level facts through several objects (%s): outside the rule's vocabulary" % (wfi.short, sorted(through)))
+    contexts = [None]
+    attr = None
+    if through:
+        attr = next(iter(through))
+        ks = _context_classes(prog, sci, attr)
+        ctx.need(ks, "%s: the classes of self.%s cannot be determined from the constructions of %s" % (wfi.short, attr, sci.qn.split(".")[-1]))
+        contexts = ks
+    what = "the port a hostinfo pair denotes under the remote's own scheme (its port, or the scheme's default when left out) is the port of the socket"
+    bad = None
+    n = 0
+    used_contexts = []
+    for K in contexts:
+        facts0 = {}
+        if K is not None:
+            skip = False
+            for name in through[attr]:
+                aexpr, aci = prog.class_attr(K, name)
+                if aexpr is None:
+                    skip = True  # an abstract base that does not define the attribute is never the context itself
+                    break
+                try:
+                    facts0["self.%s.%s" % (attr, name)] = ev.ev(aexpr, aci.module, {})
+                except (NormError, EvalRaised) as ex_:
+                    raise AnalysisError("C16.i: %s.%s is outside the evaluator's vocabulary: %s" % (K, name, ex_))
+            if skip:
+                continue
+        used_contexts.append(K)
+        try:
+            scheme = ev.ev(scheme_expr, sci.module, F.env_of(facts0))
+        except (NormError, EvalRaised) as ex_:
+            raise AnalysisError("C16.i: the scheme of %s%s is outside the evaluator's vocabulary: %s" % (sci.qn, " created by %s" % K if K else "", ex_))
+        ctx.need(scheme in DEFAULT_PORTS, "C16.i: %r is not a CoAP scheme with a known default port" % (scheme,))
+        for server in (False, True):
+            for sni in (None, "sni.example"):
+                for lp in _SOCK_PORTS:
+                    for rp in _SOCK_PORTS:
+                        if lp != rp and lp != _SOCK_PORTS[0] and rp != _SOCK_PORTS[0]:
+                            continue  # every port on each side, against one fixed port on the other
+                        facts = dict(facts0)
+                        facts.update({"extra:sockname": ("2001:db8::2", lp, 0, 0), "extra:peername": ("2001:db8::1", rp, 0, 0), "self._local_is_server": server,
+                                      "extra:ssl_object": None if sni is None else "<ssl object>", "extra:ssl_object.indicated_server_name": sni})
+                        env = F.env_of(facts)
+                        hit = 0
+                        for cs in cases:
+                            if not F.applies(cs["conds"], facts, env, (), "C16.i: %s" % wfi.short):
+                                continue
+                            hit += 1
+                            for side, f in pair.items():
+                                if f not in cs["state"] or f not in from_socket:
+                                    continue
+                                av, v = cs["state"][f]
+                                try:
+                                    got = ev.ev(av, wfi.module, env)
+                                except EvalRaised as ex_:
+                                    got = "<raises %r>" % (ex_.exc,)
+                                except NormError as ex_:
+                                    raise AnalysisError("C16.i: %s: the value of %s `%s` is outside the evaluator's vocabulary: %s" % (wfi.short, f, txt(v, 100), ex_))
+                                n += 1
+                                actual = lp if side == "sockname" else rp
+                                ok = isinstance(got, (tuple, list)) and len(got) == 2 and (got[1] if got[1] is not None else DEFAULT_PORTS[scheme]) == actual
+                                if not ok and bad is None:
+                                    bad = (cs, "%s of a %s remote%s with socket port %d is %r: that denotes port %s" % (
+                                        f, scheme, (" created by %s" % K.split(".")[-1]) if K else "", actual, got,
+                                        (got[1] if got[1] is not None else "%d, the default of %s" % (DEFAULT_PORTS[scheme], scheme)) if isinstance(got, (tuple, list)) and len(got) == 2 else "?"))
+                        ctx.need(hit > 0, "%s: no path for the scenario %s" % (wfi.short, sorted(facts.items(), key=str)))
+    ctx.need(n > 0, "%s: nothing evaluated" % wfi.short)
+    ctx.ob(what, bad is None, wfi, bad[0]["node"] if bad else cases[0]["node"], detail=bad[1] if bad else "%d evaluation(s) over the contexts %s" % (n, [k.split(".")[-1] if k else None for k in used_contexts]),
+           construct="%s: port of the stored hostinfo pairs" % wfi.short)
+    return 1
+
+
 F_M = "aiocoap/message.py"
 F_U = "aiocoap/util/__init__.py"
 F_Q = "aiocoap/util/uri.py"
@@ -1595,7 +2378,25 @@ R.seed("C16.e", F_M, "            host = str(ip)\n", "            host = str(hos
 R.seed("C16.c", "aiocoap/message.py", "                    for x in parsed.path.split(\"/\")[1:]", "                    for x in parsed.path.lstrip(\"/\").split(\"/\")", "all leading slashes stripped: //a and /a collapse")
 
 R.seed("C16.f", "aiocoap/message.py", "urllib.parse.uses_netloc.extend(coap_schemes)\n", "urllib.parse.uses_netloc.extend(coap_schemes)\nurllib.parse.uses_params.extend(coap_schemes)\n", "';params' split off the last path segment and dropped")
-R.seed("C16.c", "aiocoap/util/uri.py", "def quote_factory(safe_characters):", "def quote_factory(safe_characters, _memo={}):", "memo shared between the path and the query quoter")
+_QF_OLD = ("def quote_factory(safe_characters):\n    \"\"\"Return a quote function that escapes all characters not in the\n    safe_characters iterable.\"\"\"\n"
+           "    safe_set = set(ord(x) for x in safe_characters)\n    if any(c >= 128 for c in safe_set):\n        raise ValueError(\"quote_factory does not support non-ASCII safe characters\")\n\n"
+           "    def quote(input_string):\n        encoded = input_string.encode(\"utf8\")\n        return \"\".join(chr(x) if x in safe_set else \"%%%02X\" % x for x in encoded)\n\n    return quote\n")
+_QF_HEAD = ("    safe_set = set(ord(x) for x in safe_characters)\n    if any(c >= 128 for c in safe_set):\n        raise ValueError(\"quote_factory does not support non-ASCII safe characters\")\n\n")
+R.seed("C16.h", F_Q, _QF_OLD,
+       "def quote_factory(safe_characters, _memo={}):\n" + _QF_HEAD +
+       "    def quote(input_string):\n        if input_string not in _memo:\n            encoded = input_string.encode(\"utf8\")\n"
+       "            _memo[input_string] = \"\".join(chr(x) if x in safe_set else \"%%%02X\" % x for x in encoded)\n        return _memo[input_string]\n\n    return quote\n",
+       "memo in a mutable default argument of the factory, keyed by the input only: shared between the path and the query quoter")
+R.seed("C16.h", F_Q, _QF_OLD,
+       "_QUOTED = {}\n\n\ndef quote_factory(safe_characters):\n" + _QF_HEAD +
+       "    def quote(input_string):\n        try:\n            return _QUOTED[input_string]\n        except KeyError:\n            pass\n        encoded = input_string.encode(\"utf8\")\n"
+       "        return _QUOTED.setdefault(input_string, \"\".join(chr(x) if x in safe_set else \"%%%02X\" % x for x in encoded))\n\n    return quote\n",
+       "module-level memo (try / except KeyError, setdefault) keyed by the input only")
+R.seed("C16.c", F_Q, _QF_OLD,
+       "def quote_factory(safe_characters):\n" + _QF_HEAD +
+       "    memo = {}\n\n    def quote(input_string):\n        if input_string not in memo:\n            encoded = input_string.encode(\"utf8\")\n"
+       "            memo[input_string] = \"\".join(chr(x) if x in safe_set else \"%%%02x\" % x for x in encoded)\n        return memo[input_string]\n\n    return quote\n",
+       "a memo private to each quote function (harmless) with lower-case escapes (the fault): decided by interpretation")
 
 # seeds for the generalised (evaluation / outcome based) clauses
 R.seed("C16.c", F_M, "                    urllib.parse.unquote(x, errors=\"strict\")\n                    for x in parsed.query.split(\"&\")", "                    urllib.parse.unquote_plus(x, errors=\"strict\")\n                    for x in parsed.query.split(\"&\")", "'+' in a query item decoded as a space")
@@ -1634,3 +2435,20 @@ R.seed("C16.c", F_Q, "    def quote(input_string):\n        encoded = input_stri
 R.seed("C16.d", F_M, "        is_ip_literal = parsed.netloc.startswith(\"[\") or (\n            parsed.hostname.count(\".\") == 3\n            and all(c in \"0123456789.\" for c in parsed.hostname)\n",
        "        digits_and_dots = False\n        for c in parsed.hostname:\n            if c in \"0123456789.\":\n                digits_and_dots = True\n        is_ip_literal = parsed.netloc.startswith(\"[\") or (\n            parsed.hostname.count(\".\") == 3\n            and digits_and_dots\n",
        "flag loop without break: set when SOME character is a digit or dot")
+
+# seeds for the clauses added in the fifth pass (authority composition, state of the quote functions, elided ports)
+R.seed("C16.g", F_M, "                if local_is_server:\n                    multicast_netloc_override = self.remote.hostinfo_local\n", "                if not local_is_server:\n                    multicast_netloc_override = self.remote.hostinfo_local\n",
+       "response to a group request: the local and the remote end of the responder's endpoint swapped")
+R.seed("C16.g", F_M, "            if refmsg.remote.is_multicast:\n", "            if refmsg.remote.is_multicast and refmsg.opt.uri_host is None:\n",
+       "a group request that names the group by Uri-Host keeps the group's authority: all responders collapse")
+R.seed("C16.g", F_M, "            if local_is_server:\n                netloc = refmsg.remote.hostinfo_local\n", "            if not local_is_server:\n                netloc = refmsg.remote.hostinfo_local\n",
+       "the server composes the URI from the client's address")
+R.seed("C16.g", F_M, "                host = refmsg.opt.uri_host or host\n", "                host = host or refmsg.opt.uri_host\n", "Uri-Host never takes the place of the remote's host")
+R.seed("C16.g", F_M, "                port = refmsg.opt.uri_port or port\n", "                port = refmsg.opt.uri_port\n", "the remote's port is lost when only Uri-Host is present")
+R.seed("C16.g", F_M, "                escaped_host = quote_nonascii(host)\n", "                escaped_host = host\n", "non-ASCII Uri-Host reaches the URI unescaped")
+R.seed("C16.g", F_U, "chr(c) if c <= 127 else \"%%%02X\" % c for c in s.encode(\"utf8\")", "chr(c) if c <= 128 else \"%%%02X\" % c for c in s.encode(\"utf8\")", "quote_nonascii keeps the byte 0x80")
+F_T = "aiocoap/transports/tcp.py"
+R.seed("C16.i", F_T, "None if sockname[1] == self._ctx._default_port else sockname[1]", "None if sockname[1] == COAP_PORT else sockname[1]",
+       "port 5683 elided whatever the scheme of the connection's context")
+R.seed("C16.i", F_T, "None if sockname[1] == self._ctx._default_port else sockname[1]", "None if sockname[1] != self._ctx._default_port else sockname[1]", "elision inverted")
+R.seed("C16.i", "aiocoap/transports/tls.py", "    _default_port = COAPS_PORT\n", "    _default_port = 5683\n", "the TLS contexts elide (and fill in) the port of the plain TCP scheme")
